@@ -575,20 +575,42 @@ def single_assignments(fn: ast.AST) -> dict[str, ast.expr]:
             params.add(a.vararg.arg)
         if a.kwarg:
             params.add(a.kwarg.arg)
+    last_bind: dict[str, tuple[int, int]] = {}
+    defpos: dict[str, tuple[int, int]] = {}
     for n in ast.walk(fn):
         if isinstance(n, ast.Name) and isinstance(n.ctx, ast.Store):
             count[n.id] = count.get(n.id, 0) + 1
+            pos = (getattr(n, "lineno", 0), getattr(n, "col_offset", 0))
+            if pos > last_bind.get(n.id, (-1, -1)):
+                last_bind[n.id] = pos
         if isinstance(n, ast.Assign) and len(n.targets) == 1 and isinstance(
                 n.targets[0], ast.Name):
             val[n.targets[0].id] = n.value
+            defpos[n.targets[0].id] = (getattr(n, "lineno", 0),
+                                       getattr(n, "col_offset", 0))
         elif isinstance(n, ast.AnnAssign) and n.value is not None and \
                 isinstance(n.target, ast.Name):
             val[n.target.id] = n.value
+            defpos[n.target.id] = (getattr(n, "lineno", 0),
+                                   getattr(n, "col_offset", 0))
     mut = mutated_names(fn)
+
+    def stable(k: str, v: ast.expr) -> bool:
+        """No name the value reads is bound again AFTER the binding of `k`
+        (a parameter that is re-assigned later, a local with a later second
+        binding): otherwise the expression could mean something else where
+        `k` is used."""
+        at = defpos.get(k, (0, 0))
+        for n in ast.walk(v):
+            if isinstance(n, ast.Name) and isinstance(n.ctx, ast.Load):
+                if n.id in last_bind and last_bind[n.id] > at and (
+                        count.get(n.id, 0) > 1 or n.id in params):
+                    return False
+        return True
     return {k: v for k, v in val.items() if count.get(k) == 1
             and k not in params and not creates_object(v) and (
                 k not in mut or isinstance(v, (ast.Subscript, ast.Attribute,
-                                               ast.Name)))}
+                                               ast.Name))) and stable(k, v)}
 
 
 #: method names that change the object they are called on
